@@ -1,5 +1,5 @@
 (** C01/C13, part 3: validity of an instance, canonical constructor arguments, and what the emitted children are to the reader
-    (classes without groom/ungroom rename: all but MAIL, MFINFO, STOCKINFO - those three are covered by the correspondence run only). *)
+    (including the three classes whose groom/ungroom renames one data element: MAIL FROM/FRM, MFINFO and STOCKINFO YIELD/YLD). *)
 From OfxV Require Import Base.Prelude Model.Schema Model.SchemaWf Model.Convert Proofs.ConvertSound Proofs.ConvertUnknown Proofs.ConvertPlaces
      Proofs.RoundTrip1 Proofs.RoundTrip2.
 From Coq Require Import Lia.
@@ -39,7 +39,13 @@ Section RT3.
   (** what the class table must satisfy for the writer's output to be readable (all decidable; see [rt_class_okb]) *)
   Record rt_class_ok (c : cinfo) (lb ub : nat) : Prop := {
     rc_export : ci_export c = true;
-    rc_norename : ci_rename c = None;
+    rc_rename : match ci_rename c with
+                | None => True
+                | Some (wire, py) =>
+                  (* the python-side tag is that of a data element of the class, the wire tag is nobody's *)
+                  (exists t r, assoc (lower py) (ci_spec c) = Some (AElem t r)) /\ py = upper (lower py)
+                  /\ has_dot wire = false /\ wire <> py /\ ~ In (lower wire) (map fst (ci_spec c))
+                end;
     rc_nodup : NoDup (map fst (ci_spec c));
     rc_lbub : (lb <= ub)%nat;
     rc_tags : forall k a, In (k, a) (ci_spec c) ->
